@@ -50,7 +50,8 @@ pub enum Norm {
     CData(String),
     Comment(String),
     Decl(String, Option<String>, Option<String>),
-    PI(String),
+    /// content, and the target as the constructor / the reader splits it off
+    PI(String, String),
     DocType(String),
 }
 
@@ -121,7 +122,7 @@ pub fn norm_of(specs: &[EvSpec], out: &mut Vec<Norm>) {
             EvSpec::CData(t) => out.push(Norm::CData(t.clone())),
             EvSpec::Comment(t) => out.push(Norm::Comment(t.clone())),
             EvSpec::Decl(v, e, s) => out.push(Norm::Decl(v.clone(), e.clone(), s.clone())),
-            EvSpec::PI(t) => out.push(Norm::PI(t.clone())),
+            EvSpec::PI(t) => out.push(Norm::PI(t.clone(), String::from_utf8_lossy(BytesPI::new(t.as_str()).target()).into_owned())),
             EvSpec::DocType(t) => out.push(Norm::DocType(t.clone())),
             EvSpec::Eof => {}
             EvSpec::Element(n, attrs, content) => match content {
@@ -138,7 +139,7 @@ pub fn norm_of(specs: &[EvSpec], out: &mut Vec<Norm>) {
                 }
                 Content::PI(t) => {
                     out.push(Norm::Start(n.clone(), attrs.clone()));
-                    out.push(Norm::PI(t.clone()));
+                    out.push(Norm::PI(t.clone(), String::from_utf8_lossy(BytesPI::new(t.as_str()).target()).into_owned()));
                     out.push(Norm::End(n.clone()));
                 }
                 Content::Inner(inner) => {
@@ -210,13 +211,14 @@ pub fn comment_strategy() -> impl Strategy<Value = String> {
 }
 
 pub fn pi_strategy() -> impl Strategy<Value = String> {
-    (prop::sample::select(vec!["pi", "target", "xml-stylesheet", "p"]), payload_strategy()).prop_map(|(t, s)| {
+    (prop::sample::select(vec!["pi", "target", "xml-stylesheet", "p"]), prop::sample::select(vec![" ", " ", "\t", "\n", "\r\n", "  "]), payload_strategy()).prop_map(|(t, sep, s)| {
         let body = without(s, &["?>"]);
         let body = body.trim_start().to_string();
         if body.is_empty() {
             t.to_string()
         } else {
-            format!("{} {}", t, body)
+            // the target ends at the first XML blank, whichever of the four it is
+            format!("{}{}{}", t, sep, body)
         }
     })
 }
